@@ -429,6 +429,21 @@ func (fc *followerController) append(req *proto.Append, stream proto.OxiaLogRepl
 			slog.Int64("commit-offset", req.CommitOffset),
 			slog.Int64("offset", req.Entry.Offset),
 		)
+		if req.Entry.Offset > fc.wal.LastOffset() && req.Entry.Offset > fc.commitOffset.Load() {
+			// We have appended this entry but it is not synced yet (e.g. the leader re-sends it after a
+			// reconnection): it must not be acknowledged before it is durable
+			oldHeadOffset := fc.wal.LastOffset()
+			if err := fc.wal.Sync(stream.Context()); err != nil {
+				return err
+			}
+			// The sync routine only acks what it syncs itself: ack what became durable here
+			for offset := oldHeadOffset + 1; offset <= fc.wal.LastOffset(); offset++ {
+				if err := stream.Send(&proto.Ack{Offset: offset}); err != nil {
+					fc.closeStreamNoMutex(err)
+					return nil
+				}
+			}
+		}
 		if err := stream.Send(&proto.Ack{Offset: req.Entry.Offset}); err != nil {
 			fc.closeStreamNoMutex(err)
 		}
